@@ -39,8 +39,10 @@ Fail(lbl) == UNCHANGED vars /\ last' = [lbl EXCEPT !.ok = FALSE]
 
 ---------------------------------------------------------------------------
 (* RegisterRNSName, msg_server_register.go *)
-\* yp = the chain's own yearly price for this name (exported GetCostOfName), an input of the property;
-\* the model's tariff table Cost(len, tld) is used for the detailed behaviour (a tariff change is drift)
+\* yp = the chain's own yearly price for this name (exported GetCostOfName), logged with the message.
+\* C16Step checks the debit against yp; RnsTrace!C16_Listed checks yp against the listed tariff: the chain's exported
+\* per-TLD base price (types.TLDCost, logged as base) times the length tier Tier(len) below, so a wrong tier is a
+\* violation, while a repricing of the listed TLD base is only drift against this model's TLDCost.
 Register(s, n, len, tld, y, data, prim, yp) ==
   LET lbl  == [a |-> "register", s |-> s, n |-> n, len |-> len, tld |-> tld, y |-> y,
                data |-> data, prim |-> prim, yp |-> yp, ok |-> TRUE]
